@@ -2141,6 +2141,10 @@ def _iter_items(v):
         return list(v.items)
     if isinstance(v, Obj) and isinstance(v.fields.get('__items__'), Tup):
         return list(v.fields['__items__'].items)
+    if isinstance(v, Obj) and v.cls == 'PixCoord' and isinstance(v.fields.get('x'), Tup) and isinstance(v.fields.get('y'), Tup) \
+            and len(v.fields['x'].items) == len(v.fields['y'].items):
+        # iterating a non-scalar PixCoord yields one scalar PixCoord per element
+        return [Obj('PixCoord', {'x': a, 'y': b}, None, v.ci) for a, b in zip(v.fields['x'].items, v.fields['y'].items)]
     if isinstance(v, App) and v.name == 'dict.items' and isinstance(v.args[0], DictV) and not v.args[0].has_symbolic():
         d = v.args[0]
         return [Tup((Const(k), d.get(k))) for k in d.keys()]
